@@ -27,8 +27,7 @@ namespace glm
 	{
 		GLM_STATIC_ASSERT(std::numeric_limits<genType>::is_iec559 || GLM_CONFIG_UNRESTRICTED_FLOAT, "'cot' only accept floating-point values");
 
-		genType const pi_over_2 = genType(3.1415926535897932384626433832795 / 2.0);
-		return glm::tan(pi_over_2 - angle);
+		return genType(1) / glm::tan(angle);
 	}
 
 	// asec
